@@ -278,6 +278,63 @@ static Polygons cloudPolys(int n, int sites) {
   return ps;
 }
 
+// Large even-manifold-but-not-2-manifold import: `pairs` pairs of tetrahedra,
+// the two of a pair touch along an edge and SHARE its two vertices (the edge has
+// four triangles).  6 verts / 8 tris per pair; >= 43691 pairs gives >= 2^18
+// vertices (CreateHalfedges' bucketed branch).  Triangle order is shuffled.
+static MeshGL64 tetPairsMesh(int pairs, bool share) {
+  struct V3 { double x, y, z; };
+  std::vector<V3> verts;
+  std::vector<std::array<uint64_t, 3>> tris;
+  auto det = [&](uint64_t a, uint64_t b, uint64_t c, uint64_t d) {
+    const V3 &A = verts[a], &B = verts[b], &C = verts[c], &D = verts[d];
+    const double bx = B.x - A.x, by = B.y - A.y, bz = B.z - A.z, cx = C.x - A.x, cy = C.y - A.y, cz = C.z - A.z,
+                 dx = D.x - A.x, dy = D.y - A.y, dz = D.z - A.z;
+    return bx * (cy * dz - cz * dy) - by * (cx * dz - cz * dx) + bz * (cx * dy - cy * dx);
+  };
+  auto addTet = [&](uint64_t a, uint64_t b, uint64_t c, uint64_t d) {
+    if (det(a, b, c, d) < 0) std::swap(c, d);
+    tris.push_back({a, c, b});
+    tris.push_back({a, b, d});
+    tris.push_back({a, d, c});
+    tris.push_back({b, c, d});
+  };
+  const int gx = 36, gy = 36;
+  for (int k = 0; k < pairs; ++k) {
+    const double ox = 3.0 * (k % gx), oy = 2.0 * ((k / gx) % gy), oz = 2.0 * (k / (gx * gy));
+    const uint64_t s0 = verts.size();
+    verts.push_back({ox, oy, oz});
+    verts.push_back({ox, oy, oz + 1});
+    verts.push_back({ox + 1, oy - 0.3, oz + 0.5});
+    verts.push_back({ox + 1, oy + 0.3, oz + 0.5});
+    verts.push_back({ox - 1, oy + 0.3, oz + 0.5});
+    verts.push_back({ox - 1, oy - 0.3, oz + 0.5});
+    addTet(s0, s0 + 1, s0 + 2, s0 + 3);
+    if (share) {
+      addTet(s0, s0 + 1, s0 + 4, s0 + 5);
+    } else {
+      verts.push_back({ox, oy, oz});
+      verts.push_back({ox, oy, oz + 1});
+      addTet(s0 + 6, s0 + 7, s0 + 4, s0 + 5);
+    }
+  }
+  Lcg g{4242};
+  for (size_t i = tris.size() - 1; i > 0; --i) {
+    const size_t j = static_cast<size_t>(g.next() * (i + 1)) % (i + 1);
+    std::swap(tris[i], tris[j]);
+  }
+  MeshGL64 m;
+  m.numProp = 3;
+  for (auto& v : verts) {
+    m.vertProperties.push_back(v.x);
+    m.vertProperties.push_back(v.y);
+    m.vertProperties.push_back(v.z);
+  }
+  for (auto& t : tris)
+    for (int i = 0; i < 3; ++i) m.triVerts.push_back(t[i]);
+  return m;
+}
+
 static void runProgram(const std::string& kind, double a, double b, double c,
                        Out& o) {
   const int n = static_cast<int>(a);
@@ -384,6 +441,12 @@ static void runProgram(const std::string& kind, double a, double b, double c,
                  Manifold::Cube(vec3(1, 1, 2)).Translate(vec3(2, 2, 1));
     hashMesh(o, "sub.", P - Q);
     hashMesh(o, "and.", P ^ Q.Rotate(0, 0, b));
+  } else if (kind == "tetpairs") {
+    Manifold m(tetPairsMesh(n, b > 0));
+    o.add("numVert", m.NumVert());
+    o.add("numTri", m.NumTri());
+    o.add("genus", static_cast<uint64_t>(static_cast<int64_t>(m.Genus())));
+    hashMesh(o, "", m);
   } else if (kind == "dedupe") {
     Manifold m(sharedEdgeMesh(n));
     hashMesh(o, "", m);
